@@ -50,6 +50,24 @@ def tokens(text):
     return out
 
 
+def _gens_py(e):
+    def target(x):
+        return isinstance(x, ast.Name) or (isinstance(x, (ast.Tuple, ast.List)) and all(isinstance(y, ast.Name) for y in x.elts))
+    c = lambda x: core_py(x) and not isinstance(x, ast.Starred)
+    return len(e.generators) >= 1 and all(target(g.target) and core_py(g.target) and c(g.iter) and all(c(i) for i in g.ifs)
+                                          and not g.is_async for g in e.generators)
+
+
+def gen_core_py(e):
+    """mirror of Parse.gen_core: a generator expression whose parts are in the core"""
+    return isinstance(e, ast.GeneratorExp) and core_py(e.elt) and not isinstance(e.elt, ast.Starred) and _gens_py(e)
+
+
+def core_top_py(e):
+    """mirror of Parse.core_top: what the round-trip theorem covers as a whole expression"""
+    return (core_py(e) and not isinstance(e, ast.Starred)) or gen_core_py(e)
+
+
 def core_py(e, elem=False):
     """mirror of Parse.core (kept in sync by hand; the model's own answer is what counts: see core-check).
     elem: e is an element of a display / a positional argument (a starred expression is allowed there)"""
@@ -79,6 +97,8 @@ def core_py(e, elem=False):
     if t == "Attribute":
         return c(e.value)
     if t == "Call":
+        if len(e.args) == 1 and not e.keywords and isinstance(e.args[0], ast.GeneratorExp):
+            return c(e.func) and gen_core_py(e.args[0])          # f(x for x in y)
         return c(e.func) and all(el(a) for a in e.args) and all(c(k.value) for k in e.keywords)
     if t == "Subscript":
         if isinstance(e.slice, ast.Slice):
